@@ -23,6 +23,9 @@ vars == <<l, typ, msg, rmsg>>
 
 DepthLimit == 10000
 Opts(discard, dev) == [discard |-> discard, depth |-> DepthLimit, dev |-> dev]
+\* e.limit = proto.UnmarshalOptions.RecursionLimit (0 = default); the root message itself uses up
+\* one level, the decoder machine counts the levels below it
+OptsE(e, dev) == [discard |-> e.discard, depth |-> IF e.limit > 0 THEN e.limit - 1 ELSE DepthLimit, dev |-> dev]
 
 Verdict(e, impl, ref, sig) ==
     IF impl /\ ref THEN TRUE
@@ -190,7 +193,7 @@ AppendEv ==
 \* attribute a wrong decode result to a named deviation of Codec!DecRecord, if any explains it
 Diagnose(e, st) ==
     LET cands == {D \in SUBSET DevNames : D # {} /\
-                    LET d == DecInto(S, typ, e.in, IF e.merge THEN msg ELSE EmptyMsg, Opts(e.discard, D))
+                    LET d == DecInto(S, typ, e.in, IF e.merge THEN msg ELSE EmptyMsg, OptsE(e, D))
                     IN d.ok /\ d.val = st}
     IN IF ~e.ok THEN "unmarshal:error"
        ELSE IF ~e.fast_eq THEN "unmarshal:fastproj"
@@ -202,8 +205,8 @@ Diagnose(e, st) ==
 Unmarshal ==
     /\ IsEvent("unmarshal")
     /\ LET e == Trace[l]
-           exp  == DecInto(S, typ, e.in, IF e.merge THEN msg ELSE EmptyMsg, Opts(e.discard, {}))
-           rexp == DecInto(S, typ, e.in, IF e.merge THEN rmsg ELSE EmptyMsg, Opts(e.discard, {}))
+           exp  == DecInto(S, typ, e.in, IF e.merge THEN msg ELSE EmptyMsg, OptsE(e, {}))
+           rexp == DecInto(S, typ, e.in, IF e.merge THEN rmsg ELSE EmptyMsg, OptsE(e, {}))
            st == FromJ(S, typ, e.st)
            rst == FromJ(S, typ, e.ref_st)
            impl == exp.ok => (e.ok /\ st = exp.val /\ e.fast_eq)
